@@ -91,6 +91,6 @@ package reactor
 // Start (its once.Do closure): establishes the invariant with an empty reactor.
 //@ func Start$1
 //@   property C12
-//@   requires [config] *maxTokens >= 1
+//@   requires [config] maxTokens >= 1
 //@   requires [ghost-init] pendIns == 0 && pendFin == 0 && pendSend == 0 && transit == 0 && outCnt == 0
-//@   ensures [init] globalReactor != nil && G() && len(globalReactor.tokenPool) == 0 && cap(globalReactor.tokenPool) == *maxTokens && cap(globalReactor.input) == *maxTokens // C12: never more seeds in flight than the configured number of tokens
+//@   ensures [init] globalReactor != nil && G() && len(globalReactor.tokenPool) == 0 && cap(globalReactor.tokenPool) == maxTokens && cap(globalReactor.input) == maxTokens // C12: never more seeds in flight than the configured number of tokens
